@@ -67,8 +67,11 @@ def run(prog):
     cnf = one(te, "from_dimacs").term
     cp = one(te, "compile_plan")
     errs = []
-    b = strip(cp.args[0])
-    plan = strip(cp.args[1])
+    from . import canon
+    # helpers of the binary itself (`order_for_heuristic(&cnf, ..)`, `plan_for_strategy(&cnf, ..)`) are looked through
+    look = lambda t: canon.inline_local(prog, t, lambda h: h.unit == fn.unit and "{closure" not in h.npath)
+    b = strip(look(cp.args[0]))
+    plan = strip(look(cp.args[1]))
     if not (mir.is_call(b, "new") and "RobddBuilder" in b[1].key()):
         errs.append("compile_plan receiver is not a fresh RobddBuilder")
     else:
